@@ -140,14 +140,19 @@ async def run(ctx) -> None:
         name = f"/dev/simr{n_snap}"
         hub.add_port(name, GID)
         cfg = {"disable_discovery": True, "enforce_known_list": False, "enable_eavesdrop": eaves, "max_zones": k("max_zones", 12)}
+        kl = {}
+        if k("known_list"):
+            cfg["enforce_known_list"] = True
+            kl = {"known_list": {i: {} for i in k("known_list")}}
+            ctx.probe("restart_with_an_enforced_known_list")
         g2 = None
         try:
             if o.get("fed") == "log":  # the restarted application replays a packet log (here: one with nothing in it yet)
                 ctx.probe("fresh_gateway_fed_by_a_packet_log")
                 cfg2 = {x: y for x, y in cfg.items() if x != "disable_discovery"}
-                g2 = Gateway(None, input_file=io.TextIOWrapper(io.BytesIO(b"")), config=cfg2, **({} if o.get("bare") else S1[0]))
+                g2 = Gateway(None, input_file=io.TextIOWrapper(io.BytesIO(b"")), config=cfg2, **kl, **({} if o.get("bare") else S1[0]))
             else:
-                g2 = Gateway(name, config=cfg, **({} if o.get("bare") else S1[0]))
+                g2 = Gateway(name, config=cfg, **kl, **({} if o.get("bare") else S1[0]))
             if o.get("stall"):  # a slow host: restoring the cache takes about that many seconds
                 loop.iter_cost = float(o["stall"]) / max(60, 3 * len(S1[1]))
                 hub.count("slow_host_during_restore")
